@@ -99,7 +99,7 @@ def judge(cid, src, inputs, mode, feats, meta):
           c = diff.run(g, mc, a, unwrap_convert=unwrap)
         finally:
           arm(False)
-        if o['kind'] == 'timeout':
+        if o['kind'] in ('timeout', 'overflow') or c['kind'] == 'timeout':
           continue
         bad = diff.compare(o, c)
         if bad and not mon.violations:
